@@ -61,12 +61,34 @@ small = st.one_of(vals.values(1), st.sampled_from([["lit", 1], ["lit", "s"], ["l
 twin_set = st.tuples(st.sampled_from(["pair", "geny", "gen", "second", "pair", "geny"]), st.lists(st.tuples(small, small), min_size=1, max_size=4),
                      st.lists(trace_spec, max_size=6)).map(
     lambda p: [[p[0], [a, b]] for a, b in p[1]] + [[p[0], [b, a] if p[0] != "geny" else [a, a]] for a, b in p[1]] + p[2])
-trace_sets = st.one_of(st.lists(trace_spec, min_size=4, max_size=24), focused_set, twin_set,
+# a wide class hierarchy at ONE position under the default chain: more than five classes that share a base, some with multiple
+# inheritance (the common-base search must not depend on which member happens to come first)
+mi_family = st.tuples(st.sampled_from(sorted(FUNCS)), st.lists(st.sampled_from(["D1", "D2", "DD", "Base", "Mixed", "D3", "D4", "D5", "Mixed2"]), min_size=6, max_size=9, unique=True)).map(
+    lambda p: [[p[0], [["inst", c], ["inst", c]]] for c in p[1]])
+# the same, inside ONE value: lists holding instances of the hierarchy in different element orders - the traces' types are
+# equal as sets of union members but spelled in different member orders, and only the first of two equal traces is kept
+_mi_classes = st.lists(st.sampled_from(["D1", "D2", "DD", "Base", "Mixed", "D3", "D4", "D5", "Mixed2"]), min_size=6, max_size=8, unique=True)
+mi_lists = st.tuples(st.sampled_from(sorted(FUNCS)), _mi_classes.flatmap(lambda cs: st.lists(st.permutations(cs), min_size=2, max_size=3).filter(lambda ps: ps[0][0] != ps[1][0]))).map(
+    lambda p: [[p[0], [["list", [["inst", c] for c in perm]], ["list", [["inst", c] for c in perm]]]] for perm in p[1]])
+trace_sets = st.one_of(mi_family, mi_lists, st.lists(trace_spec, min_size=4, max_size=24), focused_set, twin_set,
                        st.tuples(focused_set, st.lists(trace_spec, max_size=8)).map(lambda p: p[0] + p[1]))
+
+
+def _is_mi_list(v):
+    return v[0] == "list" and len(v[1]) >= 6 and all(e[0] == "inst" and e[1] in ("D1", "D2", "DD", "Base", "Mixed", "D3", "D4", "D5", "Mixed2") for e in v[1])
 
 
 def make_trace(ts, k):
     fname, vs = ts
+    if all(_is_mi_list(v) for v in vs):
+        # List[Union[...]] spelled in THIS value's element order. (`List[u]` is cached by typing on the union's order-insensitive
+        # equality and would hand back the first spelling ever made in this process: build the alias uncached.)
+        import fxh
+        from typing import List, Union
+        fn = live(fname)
+        names = [n for n in fn.__code__.co_varnames[: fn.__code__.co_argcount] if n not in ("self", "cls")]
+        tys = [List.copy_with((Union[tuple(getattr(fxh, e[1]) for e in v[1])],)) for v in vs]
+        return CallTrace(fn, {n: t for n, t in zip(names, tys)}, tys[0], None)
     fn = live(fname)
     names = [n for n in fn.__code__.co_varnames[: fn.__code__.co_argcount] if n not in ("self", "cls")]
     vals_ = [vals.build(v) for v in vs]
@@ -250,6 +272,58 @@ def cli_presentations(ctx, tspecs, k, rw_name, rnd, workdir, hashseeds):
                             f"presentation {p} (PYTHONHASHSEED={hs}, other order/duplicates/batching): {d}\n--- first\n{text0[:900]}\n--- other\n{text[:900]}", raise_=False)
 
 
+LIB_SCRIPT = """
+import random, sys
+from monkeytype.db.sqlite import SQLiteStore
+from monkeytype.stubs import build_module_stubs_from_traces
+from monkeytype.typing import DEFAULT_REWRITER, NoOpRewriter
+db, seed, k, rw = sys.argv[1], int(sys.argv[2]), int(sys.argv[3]), sys.argv[4]
+rows = SQLiteStore.make_store(db).filter("fx_target", limit=10 ** 6)
+rows.sort(key=lambda r: (r.qualname, r.arg_types, str(r.return_type), str(r.yield_type)))
+if rows:
+    rows = rows[seed % len(rows):] + rows[:seed % len(rows)]  # rotation, reversed for odd seeds, a shuffle beyond len(rows)
+    if seed % 2:
+        rows.reverse()
+    if seed > len(rows):
+        random.Random(seed).shuffle(rows)
+traces = [r.to_trace() for r in rows]
+print(build_module_stubs_from_traces(traces, k, rewriter=DEFAULT_REWRITER if rw == "default" else NoOpRewriter())["fx_target"].render())
+"""
+
+
+def lib_presentations(ctx, tspecs, k, rw_name, workdir, seeds):
+    """the library entry point in FRESH interpreters, each given the stored rows in another order (within one process the
+    typing module's caches make the first spelling of a union win for good, so orders have to be varied across processes)"""
+    spec = ["LIB", tspecs, k, rw_name]
+    ctx.case(spec, nontrivial(tspecs), ["library-entry-cross-process", "rewriter:" + rw_name, "k=%d" % k])
+    db = os.path.join(workdir, "lib.sqlite3")
+    if os.path.exists(db):
+        os.unlink(db)
+    st_ = SQLiteStore.make_store(db)
+    st_.add([make_trace(t, k) for t in tspecs])
+    st_.conn.close()
+    results = []
+    for sd in seeds:
+        pr = subprocess.run([sys.executable, "-c", LIB_SCRIPT, db, str(sd), str(k), rw_name], capture_output=True, text=True, cwd=workdir,
+                            env=dict(os.environ, PYTHONHASHSEED=str(sd % 5)))
+        if pr.returncode != 0 or not pr.stdout.strip():
+            ctx.label("skipped:library-entry-raises(C07/C12 own crashes)")
+            return
+        try:
+            results.append((sd, pr.stdout, canonical(pr.stdout)))
+        except stubread.StubError:
+            ctx.label("skipped:stub-not-canonicalisable(C11/C12 findings)")
+            return
+    s0, t0, c0 = results[0]
+    for sd, text, c in results[1:]:
+        d = diff(c0, c)
+        if d and only_same_named_class_order(c0, c):
+            ctx.fail("C14/same-named-generated-classes-in-trace-order", spec, f"row order {sd}: {d[:300]}", raise_=False)
+        elif d:
+            return ctx.fail("C14/stub-depends-on-presentation-or-process", spec,
+                            f"library entry point, rows in another order (shuffle {s0} vs {sd}): {d}\n--- first\n{t0[:900]}\n--- other\n{text[:900]}", raise_=False)
+
+
 def _overlap_classes():
     import barnmfoo
     import fxh
@@ -358,7 +432,7 @@ def shard(ctx):
         sets = []
 
         @hypothesis.seed(ctx.shard_seed(9))
-        @core.hyp_settings(1 if q else 6, shrink=False)
+        @core.hyp_settings(2 if q else 7, shrink=False)
         @given(trace_sets, st.sampled_from([0, 3]), st.sampled_from(["default", "noop"]))
         def collect(tspecs, k, rw):
             sets.append((tspecs, k, rw))
@@ -377,12 +451,33 @@ def shard(ctx):
             # TypedDict merging across traces with same-named nested classes (k=3): field and class order must not follow hashing
             sets.append(([[fname, v] for v in vss], 3, rw))
 
+        @hypothesis.seed(ctx.shard_seed(13))
+        @core.hyp_settings(2 if q else 5, shrink=False)
+        @given(mi_family)
+        def collect_mi(tspecs):
+            sets.append((tspecs, 0, "default"))
+
+        @hypothesis.seed(ctx.shard_seed(14))
+        @core.hyp_settings(3 if q else 8, shrink=False)
+        @given(st.one_of(mi_lists, mi_lists, mi_family, twin_set))
+        def collect_lib(tspecs):
+            libsets.append((tspecs, 0, "default"))
+
+        libsets = []
+        collect_lib()
+        libsets = libsets[1:][-(2 if q else 6):]  # (Hypothesis always starts with the simplest case: identical spellings)
         collect()
+        del sets[0]  # Hypothesis always starts with the simplest case (four minimal traces): not worth eight interpreter starts
+        n0 = len(sets)
+        collect_mi()
+        del sets[n0]
         collect_focused()
         collect_siblings()
         rnd = random.Random(ctx.shard_seed(10))
         for tspecs, k, rw in sets:
             cli_presentations(ctx, tspecs, k, rw, rnd, workdir, [0, 1, 2, 3] if q else [0, 1, 2, 3, 4, 5, 6, 7, 8, 9, 10, 11])
+        for tspecs, k, rw in libsets:
+            lib_presentations(ctx, tspecs, k, rw, workdir, [0, 1, 2, 3] if q else list(range(0, 10)))
         if ctx.shard == 3 % ctx.nshards:
             big_run(ctx, 110 if q else 150)
         for _ in range(1 if q else 4):
@@ -396,6 +491,12 @@ def run(ctx):
 
 
 def replay(ctx, case):
+    if case[0] == "LIB":
+        d = tempfile.mkdtemp(prefix="c14-")
+        try:
+            return lib_presentations(ctx, case[1], case[2], case[3], d, list(range(1, 9)))
+        finally:
+            shutil.rmtree(d, ignore_errors=True)
     if case[0] == "BIGRUN":
         return big_run(ctx, case[1])
     if case[0] == "OVERLAP":
